@@ -148,7 +148,14 @@ func runC03(env *Env, tier string) {
 	// ---------------------------------------------------------------- phase 1: history
 	nsend := 0
 	target := 5 + ch.Choose("history", 56)
-	for guard := 0; a.engS() < target && guard < 300 && !env.Failed(); guard++ {
+	maxGuard := 300
+	if ch.Chance("longhistory", 1, 12) {
+		// ranges of well over a hundred numbers
+		target = 110 + ch.Choose("longhistorylen", 200)
+		maxGuard = 1500
+		env.Stat("probe_long_history")
+	}
+	for guard := 0; a.engS() < target && guard < maxGuard && !env.Failed(); guard++ {
 		if !a.ensureSession() {
 			break
 		}
@@ -261,7 +268,14 @@ func runC03(env *Env, tier string) {
 		}
 		env.Note("ResendRequest %d..%d (last used %d, clipped end %d)", b, e, last, end)
 		sBefore := S
+		// in a share of the requests the store fails in the middle of reading the range
+		readFault := !c.PersistOff && ch.Chance("readfault", 1, 8)
+		if readFault {
+			s.E.SF.ArmIterFail(ch.Choose("readfaultafter", 6))
+		}
 		r := p.Send("2", []wire.Field{wire.FI(7, b), wire.FI(16, e)}, MsgOpt{})
+		readFault = readFault && s.E.SF.IterFailed
+		s.E.SF.armedIter = false
 		if a.engS() != sBefore {
 			env.Violate("C03/consumed-numbers", "answering a ResendRequest moved the next outbound number from %d to %d", sBefore, a.engS())
 			break
@@ -339,6 +353,11 @@ func runC03(env *Env, tier string) {
 		}
 		if env.Failed() {
 			break
+		}
+		if readFault {
+			// the reply may stop anywhere; what was sent has been judged element by element above
+			env.Stat("probe_reply_cut_short_by_read_error")
+			continue
 		}
 		if b <= end && pos != end+1 {
 			env.Violate("C03/coverage-end", "request %d..%d (last used %d): coverage ends at %d, must end at %d: %s", b, e, last, pos, end+1, summarize(r))
